@@ -115,6 +115,8 @@ fn judge(sender: &MCTPSMBusContext, receivers: &[(&str, &MCTPSMBusContext)], src
 fn receivers_specs(src: u8) -> Vec<CtxSpec> {
     let mut v = recv_specs();
     v.push(enc_specs(src).swap_remove(2));
+    // forced collision: a receiver whose assigned EID equals the sender's address
+    v.push(CtxSpec { cfg: Cfg::bare(0x6D), history: vec![Event::Process(set_eid_req(0x10, 0x6D, 1, src))] });
     v
 }
 
@@ -171,7 +173,7 @@ fn sweep(run: &mut Run, name: &str, ncalls: u64, call_at: &(dyn Fn(u64) -> EncCa
             let rspecs = receivers_specs(src);
             let ros: Vec<Owned> = rspecs.iter().map(|s| Owned::new(&s.cfg)).collect();
             let rcs: Vec<MCTPSMBusContext> = ros.iter().zip(&rspecs).map(|(o, s)| build(o, &s.history)).collect();
-            let names = ["fresh", "bare", "dirty", "own-config"];
+            let names = ["fresh", "bare", "dirty", "own-config", "eid-equals-sender"];
             let mut recv: Vec<(&str, &MCTPSMBusContext)> = rcs.iter().enumerate().map(|(k, c)| (names[k], c)).collect();
             recv.push(("sender", &sender));
             one(acc, &spec, &rspecs, &recv, &sender, &call, dst, i);
@@ -218,7 +220,7 @@ pub fn replay(case: &Value) -> Result<ReplayOut, String> {
     let sender = build(&so, &spec.history);
     let ros: Vec<Owned> = rspecs.iter().map(|s| Owned::new(&s.cfg)).collect();
     let rcs: Vec<MCTPSMBusContext> = ros.iter().zip(&rspecs).map(|(o, s)| build(o, &s.history)).collect();
-    let names = ["fresh", "bare", "dirty", "own-config", "r4", "r5"];
+    let names = ["fresh", "bare", "dirty", "own-config", "eid-equals-sender", "r5"];
     let mut recv: Vec<(&str, &MCTPSMBusContext)> = rcs.iter().enumerate().map(|(k, c)| (names[k.min(5)], c)).collect();
     recv.push(("sender", &sender));
     let j = judge(&sender, &recv, spec.cfg.addr, build_ref(&spec).eid_resp, &call, dst, false, true);
